@@ -34,6 +34,10 @@ CHECKS = {
    text='Error contract of the parser: every production leaves len(errors) monotone; lookahead helpers restore the lexer state exactly and leave errors untouched (a lexical error propagates, it is not swallowed); handleError appends exactly one error and every recovery handler goes through it exactly once before building its Bad node (len(errors) == old + 1); every *Error is built from a position pair with 0 <= Pos <= End <= len(input) (precondition of errorfAtToken / errorfAtPosition / panicfAtToken, checked at each of the ~170 call sites, and of File.Position); public Parse* return a nil error iff no error was recorded and the current token is <eof> at len(input), and a MultiError with at least one element otherwise.',
    note='"At least one MultiError element per BadNode in the tree" is proved in the form: each of the four handlers records exactly one error per Bad node it builds and nothing else allocates ast.BadNode (checked syntactically over the SSA); the count over the reachable tree is the sum over handler calls and is not itself mechanised.',
    ref='§4.C09'),
+ 'C10': dict(
+   text='Contracts on the four recovery handlers, on the lexer step they use and on (*BadNode).SQL. Handlers (loop invariants, all inputs, all iterations): BadNode.Tokens are clones of the tokens that were current, in order; each lies inside the input, has Raw of the length of its range and (for every kind but the split ">") Raw is the slice input[Pos:End]; consecutive tokens do not overlap, and the later one records leading blank space or comments exactly when there is a gap between them (from the new postcondition `gap` proved for Lexer.nextToken); NodePos is the recovery point (the start of the first token), NodeEnd the end of the last one, NodePos == NodeEnd with no tokens; the first token of "\>\>" split by the type handler is not captured and NodeEnd stays before it. To prove the Raw clause, "the current token\'s Raw has the length of its range" (faithful) is carried as a pre/postcondition through all 290 parser functions (the only place it is lost is the ">" left by the type handler\'s split, where only handleParseTypeError, parseType and parseFieldType are marked weak and every caller re-establishes it by consuming that token before the next recovery point is entered). The lexer is rewound to exactly the recovery-point clone (handleError: p.Lexer == l; Lexer.Clone copies pos, Token, lastTokenKind and dotIdent). (*BadNode).SQL: per iteration, the output grows by the token\'s Raw plus one separator exactly when the output is non-empty and the input had a gap before the token (this obligation failed on the pinned tree: fixed defect, see known_findings.txt).',
+   note='Not proved: the re-lexing statements themselves (lexing input[NodePos:NodeEnd] or SQL() again yields the same kinds) - they relate a second run of the lexer on a different string and rest on the locality of maximal munch; what is proved are the facts about the recorded tokens that those statements need (exact ranges, order, gaps, separator iff gap). The content of the SQL() result (that the appended bytes are Raw) is by inspection of the concatenation; only lengths are in the obligation. "Not duplicated into enclosing constructs" is proved as: NodePos is the recovery point and every production\'s result lies left of the current token (C05 range clause). Raw of a captured ">" is only known to have length 1.',
+   ref='§4.C10'),
  'C12': dict(
    text='Proof, for all inputs and all iterations, of the loop contract of SplitRawStatements over the contract of Lexer.NextToken: every piece is input[Pos:End], pieces are in range, strictly ordered and disjoint, every piece but the last ends exactly at a ";" token, the text between two pieces is that ";" plus whitespace only (this clause is the recorded known finding: a comment directly after ";" falls between pieces), the function fails only with the lexer\'s *Error and, when it succeeds, the whole input was lexed to <eof> (so it fails exactly when the lexer fails).',
    note='Rests on the NextToken/nextToken/consumeToken contracts (verified under C13/C03, same engine) and on the trusted contracts of utf8.DecodeRuneInString and unicode.IsSpace. "No piece contains a \';\' token" is proved in the form: each loop iteration handles exactly one token and cuts at every token of kind ";" (s[End]==\';\' for every cut); the token-sequence ghost statement is not mechanised. spaceOnly constrains ASCII bytes only (non-ASCII bytes of the gap are accepted when unicode.IsSpace accepted their rune).',
